@@ -1,6 +1,8 @@
-(* C12 — the two inverse laws of proleptic-Gregorian day arithmetic (Lib/C12_Civil.v), for ALL days /
-   all valid dates: one 400-year era is swept by computation (146 097 days, resp. 400 x 12 x 31 dates),
-   the era number is handled by linear arithmetic. *)
+(* C12 — the two inverse laws of proleptic-Gregorian day arithmetic (Lib/C12_Civil.v), for ALL days / all
+   valid dates.  The era number is handled by linear arithmetic; inside one 400-year era the year-of-era
+   function is shown monotone (lia) and pinned at the first and last day of each of its 400 years (a sweep of
+   400 evaluations); month and day come from the day of the year (sweeps of 366 and 12 x 31 evaluations).
+   The sweeps are small on purpose: coqchk re-checks them without the VM. *)
 From Coq Require Import ZArith List Bool Lia.
 Require Import Webob.Lib.C12_Civil.
 Import ListNotations.
@@ -16,22 +18,153 @@ Proof.
   right. apply IH. lia.
 Qed.
 
-(* ------------------------------------------------------------------ sweep 1: every day of an era *)
-Definition chk1 (doe : Z) : bool :=
-  (0 <=? yoe_of doe) && (yoe_of doe <? 400) &&
-  (doe_of (yoe_of doe) (m_of doe) (d_of doe) =? doe) &&
-  (1 <=? m_of doe) && (m_of doe <=? 12) && (1 <=? d_of doe) && (d_of doe <=? 31) &&
-  valid_date (yoe_of doe + (if m_of doe <=? 2 then 1 else 0)) (m_of doe) (d_of doe).
+(* ------------------------------------------------------------------ year of era *)
+(* first day of era of (March-based) year-of-era y *)
+Definition ystart (y : Z) : Z := 365 * y + y / 4 - y / 100 + y / 400.
+Definition ynum (doe : Z) : Z := doe - doe / 1460 + doe / 36524 - doe / 146096.
 
-Lemma sweep1 : forallb chk1 (zrange (Z.to_nat 146097) 0) = true.
-Proof. vm_compute. reflexivity. Qed.
+Lemma yoe_of_ynum doe : yoe_of doe = ynum doe / 365.
+Proof. reflexivity. Qed.
 
-Lemma chk1_all doe : 0 <= doe < 146097 -> chk1 doe = true.
+Lemma ynum_step doe : 0 <= doe < 146096 -> ynum doe <= ynum (doe + 1).
+Proof. intros H. unfold ynum. Z.div_mod_to_equations. lia. Qed.
+
+Lemma ynum_mono_nat n : forall doe, 0 <= doe -> doe + Z.of_nat n <= 146096 -> ynum doe <= ynum (doe + Z.of_nat n).
 Proof.
-  intros H. pose proof sweep1 as S. rewrite forallb_forall in S. apply S.
-  apply zrange_in. rewrite Z2Nat.id; lia.
+  induction n as [|n IH]; intros doe H0 H1.
+  - replace (doe + Z.of_nat 0) with doe by lia. lia.
+  - rewrite Nat2Z.inj_succ. replace (doe + Z.succ (Z.of_nat n)) with ((doe + Z.of_nat n) + 1) by lia.
+    pose proof (IH doe H0 ltac:(lia)). pose proof (ynum_step (doe + Z.of_nat n) ltac:(lia)). lia.
 Qed.
 
+Lemma yoe_mono a b : 0 <= a <= b -> b <= 146096 -> yoe_of a <= yoe_of b.
+Proof.
+  intros Hab Hb. rewrite !yoe_of_ynum. apply Z.div_le_mono; [lia|].
+  pose proof (ynum_mono_nat (Z.to_nat (b - a)) a ltac:(lia)) as M.
+  rewrite Z2Nat.id in M by lia. replace (a + (b - a)) with b in M by lia. apply M. lia.
+Qed.
+
+(* each year of the era: length, and yoe_of at its first and last day *)
+Definition chk_year (y : Z) : bool :=
+  (yoe_of (ystart y) =? y) && (yoe_of (ystart (y + 1) - 1) =? y) &&
+  (ystart (y + 1) - ystart y =? 365 + (if is_leap (y + 1) then 1 else 0)).
+
+Lemma sweep_years : forallb chk_year (zrange 400 0) = true.
+Proof. vm_compute. reflexivity. Qed.
+
+Lemma year_facts y : 0 <= y < 400 ->
+  yoe_of (ystart y) = y /\ yoe_of (ystart (y + 1) - 1) = y /\
+  ystart (y + 1) - ystart y = 365 + (if is_leap (y + 1) then 1 else 0).
+Proof.
+  intros H. pose proof sweep_years as S. rewrite forallb_forall in S.
+  specialize (S y (zrange_in 400 0 y ltac:(lia))). unfold chk_year in S.
+  repeat (apply andb_true_iff in S; destruct S as [S ?]). lia.
+Qed.
+
+Lemma ystart_0 : ystart 0 = 0. Proof. reflexivity. Qed.
+Lemma ystart_400 : ystart 400 = 146097. Proof. reflexivity. Qed.
+
+Lemma ystart_mono y : 0 <= y < 400 -> ystart y < ystart (y + 1).
+Proof. intros H. destruct (year_facts y H) as [_ [_ E]]. destruct (is_leap (y + 1)); lia. Qed.
+
+Lemma ystart_bounds y : 0 <= y <= 400 -> 0 <= ystart y <= 146097.
+Proof. intros H. unfold ystart. Z.div_mod_to_equations. lia. Qed.
+
+(* every day of year y of the era has year-of-era y *)
+Lemma yoe_of_in_year y doe : 0 <= y < 400 -> ystart y <= doe < ystart (y + 1) -> yoe_of doe = y.
+Proof.
+  intros Hy Hd. destruct (year_facts y Hy) as [F1 [F2 _]].
+  pose proof (ystart_bounds y ltac:(lia)). pose proof (ystart_bounds (y + 1) ltac:(lia)).
+  pose proof (yoe_mono (ystart y) doe ltac:(lia) ltac:(lia)).
+  pose proof (yoe_mono doe (ystart (y + 1) - 1) ltac:(lia) ltac:(lia)). lia.
+Qed.
+
+(* conversely the year-of-era of any day of the era is in range and brackets the day *)
+Lemma yoe_of_spec doe : 0 <= doe < 146097 ->
+  0 <= yoe_of doe < 400 /\ ystart (yoe_of doe) <= doe < ystart (yoe_of doe + 1).
+Proof.
+  intros Hd. set (y := yoe_of doe).
+  assert (R : 0 <= y < 400).
+  { pose proof (yoe_mono 0 doe ltac:(lia) ltac:(lia)) as L.
+    pose proof (yoe_mono doe 146096 ltac:(lia) ltac:(lia)) as U.
+    change (yoe_of 0) with 0 in L. change (yoe_of 146096) with 399 in U. unfold y. lia. }
+  split; [exact R|]. split.
+  - (* doe < ystart y would put it in an earlier year *)
+    destruct (Z_lt_ge_dec doe (ystart y)) as [Hlt|]; [|lia]. exfalso.
+    destruct (Z.eq_dec y 0) as [E0|]; [rewrite E0, ystart_0 in Hlt; lia|].
+    destruct (year_facts (y - 1) ltac:(lia)) as [_ [F2 _]]. replace (y - 1 + 1) with y in F2 by lia.
+    pose proof (ystart_bounds y ltac:(lia)).
+    pose proof (yoe_mono doe (ystart y - 1) ltac:(lia) ltac:(lia)). unfold y in *. lia.
+  - destruct (Z_lt_ge_dec doe (ystart (y + 1))) as [|Hge]; [lia|]. exfalso.
+    destruct (Z.eq_dec y 399) as [E|]; [rewrite E in Hge; change (ystart (399 + 1)) with 146097 in Hge; lia|].
+    destruct (year_facts (y + 1) ltac:(lia)) as [F1 _].
+    pose proof (ystart_bounds (y + 1) ltac:(lia)).
+    pose proof (yoe_mono (ystart (y + 1)) doe ltac:(lia) ltac:(lia)). unfold y in *. lia.
+Qed.
+
+(* ------------------------------------------------------------------ month and day from the day of year *)
+Definition mp_of_doy (doy : Z) : Z := (5 * doy + 2) / 153.
+Definition dom_of_doy (doy : Z) : Z := doy - (153 * mp_of_doy doy + 2) / 5 + 1.
+Definition doy_of_md (m d : Z) : Z := (153 * mp_of_month m + 2) / 5 + d - 1.
+
+Definition chk_doy (doy : Z) : bool :=
+  let m := month_of_mp (mp_of_doy doy) in
+  let d := dom_of_doy doy in
+  (1 <=? m) && (m <=? 12) && (1 <=? d) && (d <=? 31) && (doy_of_md m d =? doy).
+
+Lemma sweep_doy : forallb chk_doy (zrange 366 0) = true.
+Proof. vm_compute. reflexivity. Qed.
+
+Lemma doy_facts doy : 0 <= doy <= 365 ->
+  let m := month_of_mp (mp_of_doy doy) in
+  let d := dom_of_doy doy in
+  1 <= m <= 12 /\ 1 <= d <= 31 /\ doy_of_md m d = doy.
+Proof.
+  intros H. pose proof sweep_doy as S. rewrite forallb_forall in S.
+  specialize (S doy (zrange_in 366 0 doy ltac:(lia))). unfold chk_doy in S. cbv zeta in *.
+  repeat (apply andb_true_iff in S; destruct S as [S ?]). lia.
+Qed.
+
+(* a month and day, back from their day of year; and how far into the year they can be *)
+Definition chk_md (m d : Z) : bool :=
+  let doy := doy_of_md m d in
+  (* February is the last month of the March-based year; its 29th needs a leap year *)
+  implb (d <=? days_in_month 4 m)
+        ((0 <=? doy) && (month_of_mp (mp_of_doy doy) =? m) && (dom_of_doy doy =? d) && (doy <=? 365)) &&
+  implb (d <=? days_in_month 1 m) (doy <=? 364).
+
+Lemma sweep_md : forallb (fun m => forallb (fun d => chk_md m d) (zrange 31 1)) (zrange 12 1) = true.
+Proof. vm_compute. reflexivity. Qed.
+
+Lemma md_facts m d : 1 <= m <= 12 -> 1 <= d <= days_in_month 4 m ->
+  let doy := doy_of_md m d in
+  0 <= doy <= 365 /\ month_of_mp (mp_of_doy doy) = m /\ dom_of_doy doy = d /\
+  (d <= days_in_month 1 m -> doy <= 364).
+Proof.
+  intros Hm Hd. pose proof sweep_md as S. rewrite forallb_forall in S.
+  specialize (S m (zrange_in 12 1 m ltac:(lia))). rewrite forallb_forall in S.
+  assert (L31 : days_in_month 4 m <= 31).
+  { unfold days_in_month. destruct (m =? 2); [destruct (is_leap 4); lia|].
+    destruct ((m =? 4) || (m =? 6) || (m =? 9) || (m =? 11)); lia. }
+  specialize (S d (zrange_in 31 1 d ltac:(lia))). unfold chk_md in S. cbv zeta in *.
+  apply andb_true_iff in S. destruct S as [S1 S2].
+  assert (Q : (d <=? days_in_month 4 m) = true) by lia. rewrite Q in S1. cbn [implb] in S1.
+  repeat (apply andb_true_iff in S1; destruct S1 as [S1 ?]).
+  repeat split; try lia.
+  all: try (intros L; destruct (d <=? days_in_month 1 m) eqn:E; [cbn [implb] in S2; lia|lia]).
+Qed.
+
+(* unfolding of the library functions in these terms *)
+Lemma doe_of_split yoe m d : 0 <= yoe < 400 -> doe_of yoe m d = ystart yoe + doy_of_md m d.
+Proof. intros H. unfold doe_of, ystart, doy_of_md. rewrite (Z.div_small yoe 400) by lia. lia. Qed.
+Lemma doy_of_split doe : 0 <= yoe_of doe < 400 -> doy_of doe = doe - ystart (yoe_of doe).
+Proof. intros H. unfold doy_of, ystart. cbv zeta. rewrite (Z.div_small (yoe_of doe) 400) by lia. lia. Qed.
+Lemma m_of_split doe : m_of doe = month_of_mp (mp_of_doy (doy_of doe)).
+Proof. reflexivity. Qed.
+Lemma d_of_split doe : d_of doe = dom_of_doy (doy_of doe).
+Proof. reflexivity. Qed.
+
+(* ------------------------------------------------------------------ eras *)
 Lemma era_div yoe era : 0 <= yoe < 400 -> (yoe + era * 400) / 400 = era /\ (yoe + era * 400) mod 400 = yoe.
 Proof.
   intros H. split.
@@ -47,65 +180,47 @@ Proof.
   - rewrite Z.add_comm, Z_mod_plus_full. apply Z.mod_small. lia.
 Qed.
 
+(* what is known about the civil date of every day of an era *)
+Lemma doe_facts doe : 0 <= doe < 146097 ->
+  0 <= yoe_of doe < 400 /\ 1 <= m_of doe <= 12 /\ 1 <= d_of doe <= 31 /\
+  doe_of (yoe_of doe) (m_of doe) (d_of doe) = doe.
+Proof.
+  intros Hd. destruct (yoe_of_spec doe Hd) as [Hy [L U]].
+  destruct (year_facts (yoe_of doe) Hy) as [_ [_ Len]].
+  assert (Hdoy : 0 <= doy_of doe <= 365).
+  { rewrite (doy_of_split doe Hy). destruct (is_leap (yoe_of doe + 1)); lia. }
+  destruct (doy_facts (doy_of doe) Hdoy) as [Hm [Hdd E]]. cbv zeta in *.
+  rewrite m_of_split, d_of_split. repeat split; try lia.
+  rewrite (doe_of_split _ _ _ Hy), E, (doy_of_split doe Hy). lia.
+Qed.
+
 Theorem days_from_civil_of_days z :
   let '(y, m, d) := civil_from_days z in days_from_civil y m d = z.
 Proof.
   unfold civil_from_days.
   set (z' := z + 719468). set (era := z' / 146097). set (doe := z' mod 146097).
   assert (Hd : 0 <= doe < 146097) by (apply Z.mod_pos_bound; lia).
-  pose proof (chk1_all doe Hd) as C. unfold chk1 in C.
-  repeat (apply andb_true_iff in C; destruct C as [C ?]).
+  destruct (doe_facts doe Hd) as [Hy [Hm [Hdd E3]]].
   unfold days_from_civil.
   set (m := m_of doe) in *. set (yoe := yoe_of doe) in *.
-  assert (Hy : 0 <= yoe < 400) by lia.
   assert (E : (if m <=? 2 then yoe + era * 400 + (if m <=? 2 then 1 else 0) - 1
                else yoe + era * 400 + (if m <=? 2 then 1 else 0)) = yoe + era * 400).
   { destruct (m <=? 2); lia. }
-  rewrite E. destruct (era_div yoe era Hy) as [E1 E2]. rewrite E1, E2.
-  assert (E3 : doe_of yoe m (d_of doe) = doe) by lia. rewrite E3.
+  rewrite E. destruct (era_div yoe era Hy) as [E1 E2]. rewrite E1, E2, E3.
   pose proof (Z.div_mod z' 146097 ltac:(lia)) as DM. fold era doe in DM. unfold z' in *. lia.
 Qed.
 
-Theorem civil_from_days_valid z :
-  let '(y, m, d) := civil_from_days z in valid_date y m d = true.
+(* month in 1..12 and day in 1..31 for every day *)
+Theorem civil_from_days_ranges z :
+  let '(y, m, d) := civil_from_days z in 1 <= m <= 12 /\ 1 <= d <= 31.
 Proof.
   unfold civil_from_days.
-  set (z' := z + 719468). set (era := z' / 146097). set (doe := z' mod 146097).
+  set (z' := z + 719468). set (doe := z' mod 146097).
   assert (Hd : 0 <= doe < 146097) by (apply Z.mod_pos_bound; lia).
-  pose proof (chk1_all doe Hd) as C. unfold chk1 in C.
-  repeat (apply andb_true_iff in C; destruct C as [C ?]).
-  match goal with H : valid_date _ _ _ = true |- _ => rename H into V end.
-  unfold valid_date in *. unfold days_in_month in *.
-  assert (L : is_leap (yoe_of doe + era * 400 + (if m_of doe <=? 2 then 1 else 0))
-              = is_leap (yoe_of doe + (if m_of doe <=? 2 then 1 else 0))).
-  { unfold is_leap.
-    set (a := yoe_of doe + (if m_of doe <=? 2 then 1 else 0)).
-    replace (yoe_of doe + era * 400 + (if m_of doe <=? 2 then 1 else 0)) with (a + era * 400) by (unfold a; lia).
-    replace (a + era * 400) with (a + (era * 100) * 4) at 1 by lia. rewrite Z_mod_plus_full.
-    replace (a + era * 400) with (a + (era * 4) * 100) at 1 by lia. rewrite Z_mod_plus_full.
-    rewrite Z_mod_plus_full. reflexivity. }
-  rewrite L. exact V.
+  destruct (doe_facts doe Hd) as [_ [Hm [Hdd _]]]. split; assumption.
 Qed.
 
-(* ------------------------------------------------------------------ sweep 2: every valid date of an era *)
-Definition chk2 (yoe m d : Z) : bool :=
-  implb (valid_date (yoe + (if m <=? 2 then 1 else 0)) m d)
-        (let doe := doe_of yoe m d in
-         (0 <=? doe) && (doe <? 146097) && (yoe_of doe =? yoe) && (m_of doe =? m) && (d_of doe =? d)).
-
-Lemma sweep2 :
-  forallb (fun yoe => forallb (fun m => forallb (fun d => chk2 yoe m d) (zrange 31 1)) (zrange 12 1))
-          (zrange 400 0) = true.
-Proof. vm_compute. reflexivity. Qed.
-
-Lemma chk2_all yoe m d : 0 <= yoe < 400 -> 1 <= m <= 12 -> 1 <= d <= 31 -> chk2 yoe m d = true.
-Proof.
-  intros Hy Hm Hd. pose proof sweep2 as S.
-  rewrite forallb_forall in S. specialize (S yoe (zrange_in 400 0 yoe ltac:(lia))).
-  rewrite forallb_forall in S. specialize (S m (zrange_in 12 1 m ltac:(lia))).
-  rewrite forallb_forall in S. exact (S d (zrange_in 31 1 d ltac:(lia))).
-Qed.
-
+(* ------------------------------------------------------------------ valid dates *)
 Lemma is_leap_shift a k : is_leap (a + k * 400) = is_leap a.
 Proof.
   unfold is_leap.
@@ -120,6 +235,11 @@ Proof.
   destruct ((m =? 4) || (m =? 6) || (m =? 9) || (m =? 11)); lia.
 Qed.
 
+(* days_in_month only looks at leapness: compare with the model years 1 (common) and 4 (leap) *)
+Lemma days_in_month_leap y m :
+  days_in_month y m = if is_leap y then days_in_month 4 m else days_in_month 1 m.
+Proof. unfold days_in_month. destruct (is_leap y); reflexivity. Qed.
+
 Theorem civil_from_days_of_civil y m d : valid_date y m d = true ->
   civil_from_days (days_from_civil y m d) = (y, m, d).
 Proof.
@@ -130,22 +250,41 @@ Proof.
   set (era := ys / 400). set (yoe := ys mod 400).
   assert (Hy : 0 <= yoe < 400) by (apply Z.mod_pos_bound; lia).
   pose proof (Z.div_mod ys 400 ltac:(lia)) as DM. fold era yoe in DM.
-  assert (V' : valid_date (yoe + adj) m d = true).
-  { unfold valid_date, days_in_month in *.
-    replace y with ((yoe + adj) + era * 400) in V by lia. rewrite is_leap_shift in V. exact V. }
-  assert (Hm : 1 <= m <= 12 /\ 1 <= d <= 31).
-  { unfold valid_date in V. repeat (apply andb_true_iff in V; destruct V as [V ?]).
-    pose proof (days_in_month_le y m). lia. }
-  pose proof (chk2_all yoe m d Hy (proj1 Hm) (proj2 Hm)) as C. unfold chk2 in C.
-  fold adj in C. rewrite V' in C. cbn [implb] in C. cbv zeta in C.
-  repeat (apply andb_true_iff in C; destruct C as [C ?]).
-  set (doe := doe_of yoe m d) in *.
+  unfold valid_date in V. repeat (apply andb_true_iff in V; destruct V as [V ?]).
+  pose proof (days_in_month_le y m) as L31.
+  assert (Hm : 1 <= m <= 12) by lia.
+  assert (Dle : d <= days_in_month y m) by lia. rewrite days_in_month_leap in Dle.
+  assert (D14 : days_in_month 1 m <= days_in_month 4 m).
+  { unfold days_in_month. destruct (m =? 2); [cbn; lia|].
+    destruct ((m =? 4) || (m =? 6) || (m =? 9) || (m =? 11)); lia. }
+  assert (Hd : 1 <= d <= days_in_month 4 m) by (destruct (is_leap y); lia).
+  destruct (md_facts m d Hm Hd) as [D0 [Dm [Dd B1]]]. cbv zeta in *.
+  set (doy := doy_of_md m d) in *.
+  destruct (year_facts yoe Hy) as [_ [_ Len]].
+  (* the day of year fits into year yoe of the era *)
+  assert (Hfit : doy < ystart (yoe + 1) - ystart yoe).
+  { rewrite Len.
+    destruct (Z.leb_spec m 2) as [M2|M2].
+    - (* January / February belong to calendar year yoe + 1 (mod 400) *)
+      assert (Ely : is_leap y = is_leap (yoe + 1)).
+      { replace y with ((yoe + 1) + era * 400) by (unfold adj in *; destruct (m <=? 2) eqn:Q; lia).
+        apply is_leap_shift. }
+      rewrite Ely in Dle. destruct (is_leap (yoe + 1)); [lia|pose proof (B1 Dle); lia].
+    - (* March .. December: month lengths do not depend on leapness *)
+      assert (E14 : days_in_month 4 m = days_in_month 1 m).
+      { unfold days_in_month. destruct (m =? 2) eqn:Q; [lia|reflexivity]. }
+      rewrite E14 in Dle. assert (Dle1 : d <= days_in_month 1 m) by (destruct (is_leap y); exact Dle).
+      pose proof (B1 Dle1). destruct (is_leap (yoe + 1)); lia. }
+  set (doe := doe_of yoe m d).
+  assert (Edoe : doe = ystart yoe + doy) by (unfold doe; apply doe_of_split; exact Hy).
+  pose proof (ystart_bounds yoe ltac:(lia)). pose proof (ystart_bounds (yoe + 1) ltac:(lia)).
+  assert (Hdoe : 0 <= doe < 146097) by lia.
+  assert (Ey : yoe_of doe = yoe) by (apply yoe_of_in_year; [exact Hy|lia]).
+  assert (Edoy : doy_of doe = doy) by (rewrite doy_of_split; rewrite Ey; lia).
   unfold civil_from_days.
   replace (era * 146097 + doe - 719468 + 719468) with (era * 146097 + doe) by lia.
-  destruct (doe_div doe era ltac:(lia)) as [E1 E2]. rewrite E1, E2.
-  assert (Em : m_of doe = m) by lia. assert (Ed : d_of doe = d) by lia.
-  assert (Ey : yoe_of doe = yoe) by lia.
-  rewrite Em, Ed, Ey. fold adj. f_equal. f_equal. lia.
+  destruct (doe_div doe era Hdoe) as [E1 E2]. rewrite E1, E2.
+  rewrite m_of_split, d_of_split, Edoy, Dm, Dd, Ey. fold adj. f_equal. f_equal. lia.
 Qed.
 
 (* the day number is linear in the day of the month: what calendar.timegm relies on *)
